@@ -39,6 +39,17 @@ Check (C09_fragment_train_completes : forall fuel st f len sent,
   if_frag_finished st' = true /\
   if_out st' = if_out st ++ frag_train fuel (if_max_frag st) len sent ++ [f]).
 
+Check (C09_fragments_before_next_datagram : forall ev p st na res st' na' res' c o0,
+  if_respond ev p (st, na, res) = Ok ((st', na', res'), c) ->
+  wire_coherent o0 st -> 0 < if_max_frag st -> if_max_frag st + wipv4_HEADER_LEN <= if_mtu st ->
+  (if_frag_finished st = false -> c = EMIT_BUSY /\ st' = st) /\
+  (c = EMIT_OK -> if_frag_finished st = true) /\
+  wire_coherent o0 st' /\
+  exists o', wire_scan o0 (if_out st') = Some o').
+
+Check (C09_ipv4_egress_keeps_wire_order : forall st o0,
+  wire_coherent o0 st -> 0 < if_max_frag st -> wire_coherent o0 (if_ipv4_egress st)).
+
 Check (C09_rx_exactly_once_whole_or_not_at_all : forall ev s ops s' rs,
   sock_is_new s -> Forall op_args_ok ops -> sock_run ev s ops = Ok (s', rs) ->
   let '(stored, consumed) := ghost_rx (combine ops rs) in
